@@ -13,8 +13,8 @@ public final class ChecksumServiceFactory {
 
     @SuppressWarnings("unchecked")
     public <B, T> ChecksumService<B, T> getChecksumService(String name) {
-        if (!name.equals("SUM8") && !name.equals("CRC16") && !name.equals("CRC32") && !name.equals("CRC64")) {
-            return null;
+        if (!java.util.Arrays.asList("SUM8", "CRC16", "CRC32", "CRC64", "Xor8", "Add16", "Mix32", "Mix64").contains(name)) {
+            return null;   // names are case-sensitive
         }
         ChecksumService<ByteBuf, Integer> s = buf -> {
             byte[] data = buf.writtenBytes();
@@ -23,18 +23,17 @@ public final class ChecksumServiceFactory {
             CRC32 c = new CRC32();
             c.update(data);
             long v = c.getValue();
+            int sum = 0, xor = 0;
+            for (byte x : data) { sum += (x & 0xff); xor ^= (x & 0xff); }
             switch (name) {
-                case "SUM8": {
-                    int sum = 0;
-                    for (byte x : data) sum += (x & 0xff);
-                    return sum & 0xff;
-                }
-                case "CRC16":
-                    return (int) (v & 0xffff);
-                case "CRC32":
-                    return (int) v;
-                default:
-                    return (int) ((v ^ 0xffffffffL) & 0xffffffffL);
+                case "SUM8": return sum & 0xff;
+                case "Xor8": return xor & 0xff;
+                case "CRC16": return (int) (v & 0xffff);
+                case "Add16": return sum & 0xffff;
+                case "CRC32": return (int) v;
+                case "Mix32": return (int) (v ^ 0x5a5a5a5aL);
+                case "Mix64": return (int) ((((v << 32) | v) ^ 0x0123456789abcdefL) & 0xffffffffL);
+                default: return (int) ((v ^ 0xffffffffL) & 0xffffffffL);
             }
         };
         return (ChecksumService<B, T>) (ChecksumService<?, ?>) s;
